@@ -4,10 +4,20 @@
 //!
 //! ops (all numbers decimal):
 //!   note <start-kind> <size-kind>            generator bookkeeping (ignored by model and judge)
-//!   file fix <path under fixtures/>          | file syn <machine> <vbase> <textoff> <load|none|short:N|long>
-//!   text <hex> / data <gap> <hex> / bss <n> / fsym <relvalue> <size>      (synthetic files only)
-//!   arch <x86|x86_64|arm|arm64|none>         architecture of the object, determined by the harness
+//!   file fix <path under fixtures/>          | file syn <machine> <vbase> <textoff> <load|none|short:N|long|off:K>
+//!   | file fixp <path> <offset> <u32>          the fixture with one little-endian u32 patched in memory (Mach-O cpusubtype / cputype)
+//!   | file fat <path> <member index>           one member of a fat Mach-O fixture (the code is served the whole archive)
+//!   | file jit <elf machine>                   a generated JITDUMP file
+//!   text <hex> / data <gap> <hex> / bss <n> / fsym <relvalue> <size>      (synthetic ELF files only)
+//!   bsym <func|public> <rel> <size>          (synthetic ELF only) records of a Breakpad .sym served as the debug file
+//!   rec <namelen> <hex code> / skip <kind> <len>                          (JITDUMP only: code-load records / other records)
+//!   member <start> <size>                    (fat only, informational) file range of the member
+//!   arch <string|none>                       what `BinaryImage::arch()` returns for the loaded binary (observed)
+//!   truearch <x86|x86_64|arm|arm64|none>     architecture per the object's own header (harness's parse; JITDUMP: the generator's)
+//!   fpmode full                              the `fp` / `ref` fingerprints are of the whole instruction text on every architecture
+//!   pre <start> <size> <cont>                requests run before `req` on the same SymbolManager (output discarded)
 //!   req <start> <size> <cont>                the request
+//!   kind jit / jent <rel> <codeoff> <codelen> / flen <n>     (JITDUMP only) the index as the writer laid it out
 //!   sym none | sym <addr> <size|none>        symbol found by a direct lookup of <start> (only when cont=1)
 //!   base <n>                                 relative-address base of the object
 //!   sec <addr> <size> <fileoff> <datalen|e>  every section, in object order
@@ -19,7 +29,7 @@
 //!   ref <tokens>                             per slice offset: fingerprint of the decoded text, or `-`
 //! out:
 //!   resp <startAddress> <size> <arch>        then `offs <o>[!] …`, `bad <hex> …`, `fp <h> …`
-//!   | err:<notfound|range|parse|arch|load|other> | panic
+//!   | err:<notfound|range|parse|arch|io|load|other> | panic
 use std::collections::HashMap;
 use std::panic::{catch_unwind, AssertUnwindSafe};
 use std::sync::{Arc, OnceLock};
@@ -31,7 +41,7 @@ use samply_symbols::{
 };
 use verif_harness::common::*;
 use verif_harness::gen::elf::*;
-use yaxpeax_arch::{Arch, DecodeError, Decoder, Reader, U8Reader};
+use yaxpeax_arch::{Arch, DecodeError, Decoder, LengthedInstruction, Reader, U8Reader};
 
 pub struct C20;
 
@@ -75,15 +85,23 @@ impl FileLocation for Loc {
 struct Helper {
     name: String,
     bytes: Arc<[u8]>,
+    /// a Breakpad symbol file offered as the first candidate for the debug file
+    sym: Option<Arc<[u8]>>,
 }
+
+const SYM_NAME: &str = "syn.so.sym";
 impl FileAndPathHelper for Helper {
     type F = Arc<[u8]>;
     type FL = Loc;
     fn get_candidate_paths_for_debug_file(&self, info: &LibraryInfo) -> FileAndPathHelperResult<Vec<CandidatePathInfo<Loc>>> {
-        Ok(match &info.debug_name {
-            Some(n) => vec![CandidatePathInfo::SingleFile(Loc(n.clone()))],
-            None => vec![],
-        })
+        let mut v = Vec::new();
+        if self.sym.is_some() {
+            v.push(CandidatePathInfo::SingleFile(Loc(SYM_NAME.to_string())));
+        }
+        if let Some(n) = &info.debug_name {
+            v.push(CandidatePathInfo::SingleFile(Loc(n.clone())));
+        }
+        Ok(v)
     }
     fn get_candidate_paths_for_binary(&self, info: &LibraryInfo) -> FileAndPathHelperResult<Vec<CandidatePathInfo<Loc>>> {
         Ok(match &info.name {
@@ -97,6 +115,8 @@ impl FileAndPathHelper for Helper {
     fn load_file(&self, l: Loc) -> std::pin::Pin<Box<dyn OptionallySendFuture<Output = FileAndPathHelperResult<Arc<[u8]>>> + '_>> {
         let r: FileAndPathHelperResult<Arc<[u8]>> = if l.0 == self.name {
             Ok(self.bytes.clone())
+        } else if let (true, Some(b)) = (l.0 == SYM_NAME, &self.sym) {
+            Ok(b.clone())
         } else {
             Err(Box::new(std::io::Error::new(std::io::ErrorKind::NotFound, "no such file")))
         };
@@ -117,14 +137,35 @@ struct Reg {
     exec: bool,
 }
 
+#[derive(Clone, Debug)]
+struct JitRec {
+    rel: u32,
+    codeoff: u64,
+    code: Vec<u8>,
+}
+
 #[derive(Clone)]
 struct Bin {
     /// the `file …` op lines that identify / reconstruct the binary
     file_ops: Vec<String>,
     name: String,
+    /// what the helper serves to samply (the whole file)
+    serve: Arc<[u8]>,
+    /// the object's own bytes: `serve`, or the member's range of a fat archive (file offsets are relative to it)
     bytes: Arc<[u8]>,
+    member: Option<(u64, u64)>,
     debug_id: String,
+    /// architecture per the object's header (specification side, also selects the oracle's decoder)
     arch: Option<&'static str>,
+    /// `BinaryImage::arch()` of the binary as loaded by the code under test
+    code_arch: Option<String>,
+    /// synthetic ELF: the SVMA ranges whose bytes the generator chose (ground truth for the window)
+    truth: Vec<(u64, Vec<u8>)>,
+    /// JITDUMP: the code-load records as written
+    jit: Option<Vec<JitRec>>,
+    /// synthetic ELF: a Breakpad symbol file that the helper offers as the debug file (symbols then come from it:
+    /// the last PUBLIC has no size, a FUNC may end beyond 2^32)
+    symfile: Option<Arc<[u8]>>,
     base: u64,
     secs: Vec<Reg>,
     segs: Vec<Reg>,
@@ -142,7 +183,11 @@ fn arch_of(a: object::Architecture) -> Option<&'static str> {
     }
 }
 
-fn parse_bin(file_ops: Vec<String>, name: &str, bytes: Arc<[u8]>) -> Option<Bin> {
+fn parse_bin(file_ops: Vec<String>, name: &str, serve: Arc<[u8]>, member: Option<(u64, u64)>) -> Option<Bin> {
+    let bytes: Arc<[u8]> = match member {
+        Some((a, n)) => Arc::from(serve.get(a as usize..(a + n) as usize)?),
+        None => serve.clone(),
+    };
     let obj = object::File::parse(&*bytes).ok()?;
     let debug_id = samply_symbols::debug_id_for_object(&obj)?.breakpad().to_string();
     let base = samply_symbols::relative_address_base(&obj);
@@ -164,7 +209,19 @@ fn parse_bin(file_ops: Vec<String>, name: &str, bytes: Arc<[u8]>) -> Option<Bin>
     }
     let arch = arch_of(obj.architecture());
     drop(obj);
-    Some(Bin { file_ops, name: name.to_string(), bytes, debug_id, arch, base, secs, segs, entries: Vec::new() })
+    let mut bin = Bin { file_ops, name: name.to_string(), serve, bytes, member, debug_id, arch, code_arch: None, truth: Vec::new(), jit: None, symfile: None, base, secs, segs, entries: Vec::new() };
+    bin.code_arch = observe_arch(&bin);
+    Some(bin)
+}
+
+/// `BinaryImage::arch()` of the binary as the code under test loads it (same `load_binary` call as `query_api`)
+fn observe_arch(bin: &Bin) -> Option<String> {
+    let m = manager(bin);
+    let r = catch_unwind(AssertUnwindSafe(|| futures::executor::block_on(m.load_binary(&library_info(bin)))));
+    match r {
+        Ok(Ok(img)) => img.arch().map(|s| s.to_string()),
+        _ => None,
+    }
 }
 
 fn library_info(bin: &Bin) -> LibraryInfo {
@@ -177,7 +234,7 @@ fn library_info(bin: &Bin) -> LibraryInfo {
 }
 
 fn manager(bin: &Bin) -> SymbolManager<Helper> {
-    SymbolManager::with_helper(Helper { name: bin.name.clone(), bytes: bin.bytes.clone() })
+    SymbolManager::with_helper(Helper { name: bin.name.clone(), bytes: bin.serve.clone(), sym: bin.symfile.clone() })
 }
 
 /// direct symbol lookup (what `get_function_end_address` consults): address and size of the symbol at `addr`
@@ -202,6 +259,20 @@ const FIXTURES: &[&str] = &[
     "other/simple-example/out/mac-dsym/main",
 ];
 
+/// Variants of fixtures: Mach-O headers with another `cpusubtype` (offset 8) / `cputype` (offset 4), so that
+/// `BinaryImage::arch()` yields the aliases `arm64e`, `x86_64h` and the names the API does not know
+/// (`arm64v8`, `i386`), and the two members of the fat archive `macos-ci/firefox`.
+const VARIANTS: &[&str] = &[
+    "file fixp other/simple-example/out/mac-dsym/main 8 2",          // CPU_SUBTYPE_ARM64E
+    "file fixp other/simple-example/out/mac-dsym/main 8 2147483650", // arm64e with the ptrauth ABI bits (0x80000002)
+    "file fixp other/simple-example/out/mac-dsym/main 8 1",          // CPU_SUBTYPE_ARM64_V8
+    "file fixp macos-local/firefox 8 8",                             // CPU_SUBTYPE_X86_64_H
+    "file fixp macos-ci/libsoftokn3.dylib 8 8",
+    "file fixp macos-local/firefox 4 7",                             // CPU_TYPE_X86 ("i386")
+    "file fat macos-ci/firefox 0",
+    "file fat macos-ci/firefox 1",
+];
+
 fn repo_dir() -> std::path::PathBuf {
     if let Ok(r) = std::env::var("VERIF_REPO") {
         return r.into();
@@ -212,34 +283,89 @@ fn repo_dir() -> std::path::PathBuf {
     std::path::Path::new(env!("CARGO_MANIFEST_DIR")).join("../repo-link")
 }
 
+/// the harness's own reading of a fat Mach-O header (big-endian `fat_header` + `fat_arch[]`): (offset, size) per member
+fn fat_members(data: &[u8]) -> Vec<(u64, u64)> {
+    let be = |o: usize| data.get(o..o + 4).map(|b| u32::from_be_bytes([b[0], b[1], b[2], b[3]]));
+    let mut v = Vec::new();
+    if be(0) != Some(0xcafe_babe) {
+        return v;
+    }
+    let n = be(4).unwrap_or(0).min(16) as usize;
+    for k in 0..n {
+        let o = 8 + 20 * k;
+        if let (Some(off), Some(size)) = (be(o + 8), be(o + 12)) {
+            v.push((off as u64, size as u64));
+        }
+    }
+    v
+}
+
+/// loads the binary a `file fix|fixp|fat …` line describes
+fn load_fixture(op: &str, with_entries: bool) -> Option<Bin> {
+    let w: Vec<&str> = op.split_whitespace().collect();
+    let (rel, patch, member_index): (&str, Option<(usize, u32)>, Option<usize>) = match w.as_slice() {
+        ["file", "fix", rel] => (rel, None, None),
+        ["file", "fixp", rel, off, val] => (rel, Some((off.parse().ok()?, val.parse().ok()?)), None),
+        ["file", "fat", rel, k] => (rel, None, Some(k.parse().ok()?)),
+        _ => return None,
+    };
+    let p = repo_dir().join("fixtures").join(rel);
+    let mut data = std::fs::read(&p).ok()?;
+    if data.is_empty() {
+        return None; // emptied in this sandbox
+    }
+    if let Some((off, val)) = patch {
+        data.get_mut(off..off + 4)?.copy_from_slice(&val.to_le_bytes());
+    }
+    let member = match member_index {
+        Some(k) => Some(*fat_members(&data).get(k)?),
+        None => None,
+    };
+    let name = rel.rsplit('/').next().unwrap().to_string();
+    let mut bin = parse_bin(vec![op.to_string()], &name, Arc::from(data), member)?;
+    if with_entries {
+        // function entries from the symbol map
+        let m = manager(&bin);
+        if let Ok(map) = futures::executor::block_on(m.load_symbol_map(&library_info(&bin))) {
+            let mut e: Vec<u32> = map.iter_symbols().map(|(a, _)| a).collect();
+            e.sort();
+            e.dedup();
+            bin.entries = e;
+        }
+    }
+    Some(bin)
+}
+
+/// all fixtures and variants, with their function entries (generator side only)
 fn fixtures() -> &'static Vec<Bin> {
     static F: OnceLock<Vec<Bin>> = OnceLock::new();
     F.get_or_init(|| {
         let mut v = Vec::new();
         for rel in FIXTURES {
-            let p = repo_dir().join("fixtures").join(rel);
-            let Ok(data) = std::fs::read(&p) else { continue };
-            if data.is_empty() {
-                continue; // emptied in this sandbox
+            if let Some(bin) = load_fixture(&format!("file fix {rel}"), true) {
+                v.push(bin);
             }
-            let name = rel.rsplit('/').next().unwrap().to_string();
-            let Some(mut bin) = parse_bin(vec![format!("file fix {rel}")], &name, Arc::from(data)) else { continue };
-            // function entries from the symbol map
-            let m = manager(&bin);
-            if let Ok(map) = futures::executor::block_on(m.load_symbol_map(&library_info(&bin))) {
-                let mut e: Vec<u32> = map.iter_symbols().map(|(a, _)| a).collect();
-                e.sort();
-                e.dedup();
-                bin.entries = e;
+        }
+        for op in VARIANTS {
+            if let Some(bin) = load_fixture(op, true) {
+                v.push(bin);
             }
-            v.push(bin);
         }
         v
     })
 }
 
-fn fixture_by_path(rel: &str) -> Option<&'static Bin> {
-    fixtures().iter().find(|b| b.file_ops[0] == format!("file fix {rel}"))
+/// the binary of one `file fix|fixp|fat` line (executor side: loads only that file, once per process)
+fn fixture_by_op(op: &str) -> Option<Bin> {
+    static C: OnceLock<std::sync::Mutex<HashMap<String, Option<Bin>>>> = OnceLock::new();
+    let c = C.get_or_init(|| std::sync::Mutex::new(HashMap::new()));
+    let key = op.split_whitespace().collect::<Vec<_>>().join(" ");
+    if let Some(b) = c.lock().unwrap().get(&key) {
+        return b.clone();
+    }
+    let b = load_fixture(&key, false);
+    c.lock().unwrap().insert(key, b.clone());
+    b
 }
 
 // ---------------------------------------------------------------------------------------------
@@ -256,6 +382,8 @@ struct Syn {
     data: Option<(u64, Vec<u8>)>,
     bss: Option<u64>,
     fsyms: Vec<(u64, u64)>,
+    /// Breakpad records `(is_func, relative address, size)` of a symbol file served as the debug file
+    bsyms: Vec<(bool, u64, u64)>,
 }
 
 fn syn_ops(s: &Syn) -> Vec<String> {
@@ -268,6 +396,9 @@ fn syn_ops(s: &Syn) -> Vec<String> {
     }
     for (a, n) in &s.fsyms {
         v.push(format!("fsym {a} {n}"));
+    }
+    for (f, a, n) in &s.bsyms {
+        v.push(format!("bsym {} {a} {n}", if *f { "func" } else { "public" }));
     }
     v
 }
@@ -289,6 +420,7 @@ fn syn_from_ops(ops: &[String]) -> Option<Syn> {
             ["data", gap, h] => s.data = Some((gap.parse().ok()?, unhex(h))),
             ["bss", n] => s.bss = Some(n.parse().ok()?),
             ["fsym", a, n] => s.fsyms.push((a.parse().ok()?, n.parse().ok()?)),
+            ["bsym", k, a, n] => s.bsyms.push((*k == "func", a.parse().ok()?, n.parse().ok()?)),
             _ => {}
         }
     }
@@ -308,10 +440,15 @@ fn build_syn(s: &Syn) -> Option<Bin> {
         "riscv" => (EM_RISCV, true),
         _ => return None,
     };
+    // `off:K`: the PT_LOAD starts at file offset K, so that file offset = relative address + K (not the identity)
+    let shift: u64 = match s.segmode.strip_prefix("off:") {
+        Some(k) => k.parse().ok()?,
+        None => 0,
+    };
     let text_addr = s.vbase + s.textoff;
-    let mut sections = vec![ElfSection::progbits(".text", text_addr, s.text.clone(), true).at_offset(s.textoff)];
+    let mut sections = vec![ElfSection::progbits(".text", text_addr, s.text.clone(), true).at_offset(shift + s.textoff)];
     let mut end_addr = text_addr + s.text.len() as u64;
-    let mut end_off = s.textoff + s.text.len() as u64;
+    let mut end_off = shift + s.textoff + s.text.len() as u64;
     if let Some((gap, d)) = &s.data {
         sections.push(ElfSection::progbits(".rodata", end_addr + gap, d.clone(), false).at_offset(end_off + gap));
         end_addr += gap + d.len() as u64;
@@ -327,6 +464,8 @@ fn build_syn(s: &Syn) -> Option<Bin> {
         // the PT_LOAD's file data ends `cut` bytes before the end of .text
         let filesz = (s.textoff + s.text.len() as u64).saturating_sub(cut);
         Segments::Explicit(vec![ElfSegment { p_type: PT_LOAD, flags: PF_R | PF_X, offset: 0, vaddr: s.vbase, filesz, memsz: end_addr - s.vbase + s.bss.unwrap_or(0), align: 0x1000 }])
+    } else if shift != 0 {
+        Segments::Explicit(vec![ElfSegment { p_type: PT_LOAD, flags: PF_R | PF_X, offset: shift, vaddr: s.vbase, filesz: end_off - shift, memsz: end_addr - s.vbase + s.bss.unwrap_or(0), align: 0x1000 }])
     } else if s.segmode == "long" {
         // the PT_LOAD claims file data far beyond the end of the file: `segment.data()` fails
         Segments::Explicit(vec![ElfSegment { p_type: PT_LOAD, flags: PF_R | PF_X, offset: 0, vaddr: s.vbase, filesz: 1 << 20, memsz: 1 << 20, align: 0x1000 }])
@@ -351,14 +490,150 @@ fn build_syn(s: &Syn) -> Option<Bin> {
         segments,
     };
     let f = write_elf(&spec);
-    parse_bin(syn_ops(s), "syn.so", Arc::from(f.bytes))
+    let mut bin = parse_bin(syn_ops(s), "syn.so", Arc::from(f.bytes), None)?;
+    bin.truth.push((text_addr, s.text.clone()));
+    if let Some((gap, d)) = &s.data {
+        bin.truth.push((text_addr + s.text.len() as u64 + gap, d.clone()));
+    }
+    if !s.bsyms.is_empty() {
+        let mut t = format!("MODULE Linux x86_64 {} syn.so\n", bin.debug_id);
+        for (k, (f, a, n)) in s.bsyms.iter().enumerate() {
+            if *f {
+                t.push_str(&format!("FUNC {a:x} {n:x} 0 bf{k}\n"));
+            } else {
+                t.push_str(&format!("PUBLIC {a:x} 0 bp{k}\n"));
+            }
+        }
+        bin.symfile = Some(Arc::from(t.into_bytes()));
+    }
+    Some(bin)
+}
+
+// ---------------------------------------------------------------------------------------------
+// JITDUMP files described by op lines
+// ---------------------------------------------------------------------------------------------
+
+#[derive(Clone, Debug)]
+enum JitItem {
+    /// JIT_CODE_LOAD with a function name of `namelen` characters and these code bytes
+    Rec { namelen: usize, code: Vec<u8> },
+    /// a record of another type (1 = CODE_MOVE, 2 = CODE_DEBUG_INFO, 4 = CODE_UNWINDING_INFO) with `len` body bytes
+    Skip { kind: u32, len: usize },
+}
+
+#[derive(Clone, Debug, Default)]
+struct JitSpec {
+    machine: u32,
+    items: Vec<JitItem>,
+}
+
+fn jit_ops(j: &JitSpec) -> Vec<String> {
+    let mut v = vec![format!("file jit {}", j.machine)];
+    for it in &j.items {
+        match it {
+            JitItem::Rec { namelen, code } => v.push(format!("rec {namelen} {}", if code.is_empty() { "-".to_string() } else { hex(code) })),
+            JitItem::Skip { kind, len } => v.push(format!("skip {kind} {len}")),
+        }
+    }
+    v
+}
+
+fn jit_from_ops(ops: &[String]) -> Option<JitSpec> {
+    let mut j = JitSpec::default();
+    let mut seen = false;
+    for l in ops {
+        let w: Vec<&str> = l.split_whitespace().collect();
+        match w.as_slice() {
+            ["file", "jit", m] => {
+                j.machine = m.parse().ok()?;
+                seen = true;
+            }
+            ["rec", n, h] => j.items.push(JitItem::Rec { namelen: n.parse().ok()?, code: if *h == "-" { Vec::new() } else { unhex(h) } }),
+            ["skip", k, n] => j.items.push(JitItem::Skip { kind: k.parse().ok()?, len: n.parse().ok()? }),
+            _ => {}
+        }
+    }
+    seen.then_some(j)
+}
+
+/// writes the dump; returns the bytes and, per code-load record, where its code bytes were put
+fn write_jit(j: &JitSpec) -> (Vec<u8>, Vec<JitRec>) {
+    let mut out = Vec::new();
+    out.extend_from_slice(&0x4A69_5444u32.to_le_bytes());
+    out.extend_from_slice(&1u32.to_le_bytes());
+    out.extend_from_slice(&40u32.to_le_bytes());
+    out.extend_from_slice(&j.machine.to_le_bytes());
+    out.extend_from_slice(&0u32.to_le_bytes());
+    out.extend_from_slice(&4711u32.to_le_bytes());
+    out.extend_from_slice(&(123_456_789u64 + j.machine as u64).to_le_bytes());
+    out.extend_from_slice(&0u64.to_le_bytes());
+    let mut recs = Vec::new();
+    let mut rel = 0u32;
+    let mut index = 0u64;
+    for it in &j.items {
+        match it {
+            JitItem::Rec { namelen, code } => {
+                let total = 16 + 40 + namelen + 1 + code.len();
+                out.extend_from_slice(&0u32.to_le_bytes());
+                out.extend_from_slice(&(total as u32).to_le_bytes());
+                out.extend_from_slice(&(1000 + index).to_le_bytes());
+                out.extend_from_slice(&4711u32.to_le_bytes());
+                out.extend_from_slice(&4711u32.to_le_bytes());
+                out.extend_from_slice(&(0x7000_0000u64 + index * 0x1000).to_le_bytes());
+                out.extend_from_slice(&(0x7000_0000u64 + index * 0x1000).to_le_bytes());
+                out.extend_from_slice(&(code.len() as u64).to_le_bytes());
+                out.extend_from_slice(&index.to_le_bytes());
+                out.extend((0..*namelen).map(|k| b'a' + (k % 26) as u8));
+                out.push(0);
+                recs.push(JitRec { rel, codeoff: out.len() as u64, code: code.clone() });
+                out.extend_from_slice(code);
+                rel += code.len() as u32;
+                index += 1;
+            }
+            JitItem::Skip { kind, len } => {
+                // A JIT_CODE_DEBUG_INFO record is parsed when the following function is looked up: keep it
+                // well-formed (code_addr = 0, nr_entry = 0, zero padding). A garbage body makes
+                // linux-perf-data's `JitCodeDebugInfoRecord::parse` call `Vec::with_capacity(nr_entry)` with the
+                // untrusted count and panic with "capacity overflow" (noted in notes/C20.md; C08 territory).
+                let (len, fill) = if *kind == 2 { ((*len).max(16), 0u8) } else { (*len, 0xccu8) };
+                out.extend_from_slice(&kind.to_le_bytes());
+                out.extend_from_slice(&((16 + len) as u32).to_le_bytes());
+                out.extend_from_slice(&(1000 + index).to_le_bytes());
+                out.extend(std::iter::repeat(fill).take(len));
+            }
+        }
+    }
+    (out, recs)
+}
+
+fn build_jit(j: &JitSpec) -> Option<Bin> {
+    let (bytes, recs) = write_jit(j);
+    let serve: Arc<[u8]> = Arc::from(bytes);
+    let name = "jit-4711.dump".to_string();
+    // identity of the dump as the code computes it (debug id from pid / timestamp / machine)
+    let m = SymbolManager::with_helper(Helper { name: name.clone(), bytes: serve.clone(), sym: None });
+    let img = futures::executor::block_on(m.load_binary_at_location(Loc(name.clone()), Some(name.clone()), None, None)).ok()?;
+    let debug_id = img.debug_id()?.breakpad().to_string();
+    let code_arch = img.arch().map(|s| s.to_string());
+    drop(img);
+    let arch = match j.machine {
+        62 => Some("x86_64"),
+        3 => Some("x86"),
+        40 => Some("arm"),
+        183 => Some("arm64"),
+        _ => None,
+    };
+    let entries = recs.iter().map(|r| r.rel).collect();
+    Some(Bin { file_ops: jit_ops(j), name, serve: serve.clone(), bytes: serve, member: None, debug_id, arch, code_arch, truth: Vec::new(), jit: Some(recs), symfile: None, base: 0, secs: Vec::new(), segs: Vec::new(), entries })
 }
 
 // ---------------------------------------------------------------------------------------------
 // the decoder oracle: the same yaxpeax decoders as asm/mod.rs, run on a fresh reader per position
 // ---------------------------------------------------------------------------------------------
 
-fn probe<'a, A: Arch>(decoder: &A::Decoder, bytes: &'a [u8], show: &dyn Fn(&A::Instruction) -> String) -> (char, Option<String>)
+/// `show` returns the instruction's text and its own `len()`; the oracle's length is the reader's advance
+/// (what mod.rs:375-380 uses) and must equal `len()`, else the oracle says `?` (the case is then rejected)
+fn probe<'a, A: Arch>(decoder: &A::Decoder, bytes: &'a [u8], show: &dyn Fn(&A::Instruction) -> (String, u64)) -> (char, Option<String>)
 where
     u64: From<A::Address>,
     U8Reader<'a>: Reader<A::Address, A::Word>,
@@ -367,8 +642,9 @@ where
     match decoder.decode(&mut reader) {
         Ok(inst) => {
             let len = u64::from(<U8Reader<'a> as Reader<A::Address, A::Word>>::total_offset(&mut reader));
-            let c = if (1..=15).contains(&len) { std::char::from_digit(len as u32, 16).unwrap() } else { '?' };
-            (c, Some(show(&inst)))
+            let (text, own_len) = show(&inst);
+            let c = if (1..=15).contains(&len) && own_len == len { std::char::from_digit(len as u32, 16).unwrap() } else { '?' };
+            (c, Some(text))
         }
         Err(e) => {
             if e.data_exhausted() {
@@ -380,15 +656,82 @@ where
     }
 }
 
-fn probe_arch(arch: &str, bytes: &[u8]) -> (char, Option<String>) {
+/// `pc` = relative address of the instruction (start of the slice + offset): needed for the text of x86-64
+/// relative branches, which the API shows with their absolute target (specification: JMP / Jcc / LOOPx / JRCXZ /
+/// CALL with an immediate operand are shown as `<mnemonic> 0x<target>`, target = pc + length + displacement)
+fn probe_arch(arch: &str, bytes: &[u8], pc: i64) -> (char, Option<String>) {
     match arch {
-        "x86" => probe::<yaxpeax_x86::protected_mode::Arch>(&yaxpeax_x86::protected_mode::InstDecoder::default(), bytes, &|i| i.to_string()),
+        "x86" => probe::<yaxpeax_x86::protected_mode::Arch>(&yaxpeax_x86::protected_mode::InstDecoder::default(), bytes, &|i| (i.to_string(), i.len().to_const() as u64)),
         "x86_64" => probe::<yaxpeax_x86::amd64::Arch>(&yaxpeax_x86::amd64::InstDecoder::default(), bytes, &|i| {
-            i.display_with(yaxpeax_x86::amd64::DisplayStyle::Intel).to_string()
+            use yaxpeax_x86::amd64::{Opcode as O, Operand};
+            let len = i.len().to_const() as u64;
+            let mut text = i.display_with(yaxpeax_x86::amd64::DisplayStyle::Intel).to_string();
+            let branch = matches!(
+                i.opcode(),
+                O::JMP | O::JRCXZ | O::LOOP | O::LOOPZ | O::LOOPNZ | O::JO | O::JNO | O::JB | O::JNB | O::JZ | O::JNZ | O::JNA | O::JA | O::JS | O::JNS | O::JP | O::JNP | O::JL | O::JGE | O::JLE | O::JG | O::CALL
+            );
+            if branch {
+                let disp = match i.operand(0) {
+                    Operand::ImmediateI8 { imm } => Some(imm as i64),
+                    Operand::ImmediateI32 { imm } => Some(imm as i64),
+                    _ => None,
+                };
+                if let Some(d) = disp {
+                    text = format!("{} 0x{:x}", i.opcode(), pc + len as i64 + d);
+                }
+            }
+            (text, len)
         }),
-        "arm64" => probe::<yaxpeax_arm::armv8::a64::ARMv8>(&yaxpeax_arm::armv8::a64::InstDecoder::default(), bytes, &|i| i.to_string()),
-        "arm" => probe::<yaxpeax_arm::armv7::ARMv7>(&yaxpeax_arm::armv7::InstDecoder::default_thumb(), bytes, &|i| i.to_string()),
+        "arm64" => probe::<yaxpeax_arm::armv8::a64::ARMv8>(&yaxpeax_arm::armv8::a64::InstDecoder::default(), bytes, &|i| (i.to_string(), i.len().to_const() as u64)),
+        "arm" => probe::<yaxpeax_arm::armv7::ARMv7>(&yaxpeax_arm::armv7::InstDecoder::default_thumb(), bytes, &|i| (i.to_string(), i.len().to_const() as u64)),
         _ => ('x', None),
+    }
+}
+
+/// The model's assumption "a fresh reader on `bytes[p..]` decodes what a reader that has advanced to `p` decodes",
+/// checked along the path the decode loop takes: one advancing reader from offset 0 (re-created after an
+/// undecodable instruction, as in mod.rs:415-418) must meet the position-indexed oracle at every step.
+fn advancing_agrees<'a, A: Arch>(decoder: &A::Decoder, bytes: &'a [u8], oracle: &[u8], adjust: usize) -> bool
+where
+    u64: From<A::Address>,
+    U8Reader<'a>: Reader<A::Address, A::Word>,
+{
+    let mut p = 0usize;
+    let mut reader = U8Reader::new(bytes);
+    loop {
+        let Some(&want) = oracle.get(p) else { return true };
+        let before = u64::from(<U8Reader<'a> as Reader<A::Address, A::Word>>::total_offset(&mut reader));
+        match decoder.decode(&mut reader) {
+            Ok(_) => {
+                let len = u64::from(<U8Reader<'a> as Reader<A::Address, A::Word>>::total_offset(&mut reader)) - before;
+                if std::char::from_digit(len as u32, 16).map(|c| c as u8) != Some(want) {
+                    return false;
+                }
+                p += len as usize;
+            }
+            Err(e) => {
+                if e.data_exhausted() {
+                    return want == b'x';
+                }
+                if want != b'i' {
+                    return false;
+                }
+                p += adjust;
+                let Some(rest) = bytes.get(p..) else { return true };
+                reader = U8Reader::new(rest);
+            }
+        }
+    }
+}
+
+fn advancing_agrees_arch(arch: &str, bytes: &[u8], oracle: &str) -> bool {
+    let o = oracle.as_bytes();
+    match arch {
+        "x86" => advancing_agrees::<yaxpeax_x86::protected_mode::Arch>(&yaxpeax_x86::protected_mode::InstDecoder::default(), bytes, o, 1),
+        "x86_64" => advancing_agrees::<yaxpeax_x86::amd64::Arch>(&yaxpeax_x86::amd64::InstDecoder::default(), bytes, o, 1),
+        "arm64" => advancing_agrees::<yaxpeax_arm::armv8::a64::ARMv8>(&yaxpeax_arm::armv8::a64::InstDecoder::default(), bytes, o, 4),
+        "arm" => advancing_agrees::<yaxpeax_arm::armv7::ARMv7>(&yaxpeax_arm::armv7::InstDecoder::default_thumb(), bytes, o, 2),
+        _ => true,
     }
 }
 
@@ -401,24 +744,29 @@ fn fnv32(s: &str) -> u32 {
     h
 }
 
-/// Fingerprint of an instruction's text. For x86-64 only the mnemonic is used, because the API rewrites the
-/// operand of relative branches into an absolute address (mod.rs:252-274).
-fn fingerprint(arch: &str, text: &str) -> String {
-    let t = if arch == "x86_64" { text.split_whitespace().next().unwrap_or("") } else { text };
+/// Fingerprint of an instruction's text (the whole text; the reference side renders x86-64 relative branches with
+/// their absolute target like the API does, mod.rs:252-274, see `probe_arch`).
+/// (Cases recorded before the improvement round have no `fpmode full` line: their x86-64 reference fingerprints are
+/// of the mnemonic only, `legacy` reproduces that.)
+fn fingerprint(arch: &str, text: &str, legacy: bool) -> String {
+    let t = if arch == "x86_64" && legacy { text.split_whitespace().next().unwrap_or("") } else { text };
     format!("{:06x}", fnv32(t) & 0xff_ffff)
 }
 
-fn tables(arch: Option<&str>, slice: &[u8]) -> (String, String) {
+fn tables(arch: Option<&str>, slice: &[u8], rel: u32) -> (String, String) {
     let Some(arch) = arch else { return ("-".into(), "-".into()) };
     let mut oracle = String::with_capacity(slice.len() + 1);
     let mut refs: Vec<String> = Vec::with_capacity(slice.len() + 1);
     for p in 0..=slice.len() {
-        let (c, text) = probe_arch(arch, &slice[p..]);
+        let (c, text) = probe_arch(arch, &slice[p..], rel as i64 + p as i64);
         oracle.push(c);
         refs.push(match text {
-            Some(t) => fingerprint(arch, &t),
+            Some(t) => fingerprint(arch, &t, false),
             None => "-".to_string(),
         });
+    }
+    if !advancing_agrees_arch(arch, slice, &oracle) {
+        oracle.push('?'); // rejected by the model driver and the judge as `bad-op`
     }
     (oracle, refs.join(" "))
 }
@@ -455,6 +803,12 @@ fn spec_slice(bin: &Bin, start: u32, size: u32, cont: bool, sym: Option<(u32, Op
     };
     let rel = start / align * align;
     let want = (spec_len(start, size, cont, sym) + 15).min(u32::MAX as u64);
+    if let Some(recs) = &bin.jit {
+        // the record whose code contains the address; the bytes from there to the end of that record's code
+        let r = recs.iter().find(|r| r.rel <= rel && ((rel - r.rel) as usize) < r.code.len())?;
+        let off = (rel - r.rel) as u64;
+        return Some((rel, r.codeoff + off, want.min(r.code.len() as u64 - off)));
+    }
     let svma = bin.base.checked_add(rel as u64)?;
     let sec = bin.secs.iter().find(|s| contains(s, svma))?;
     let n = want.min(sec.addr + sec.size - svma);
@@ -468,6 +822,31 @@ fn spec_slice(bin: &Bin, start: u32, size: u32, cont: bool, sym: Option<(u32, Op
     }
 }
 
+/// The bytes of the slice. Where the generator chose the bytes itself (synthetic ELF text/data, JITDUMP code)
+/// they are taken from the generator's description by *address*, not from the file by offset; otherwise they are
+/// read from the file (for a fat member: at the member's start plus the offset inside the member).
+fn window(bin: &Bin, rel: u32, fo: u64, n: u64) -> Option<Vec<u8>> {
+    if let Some(recs) = &bin.jit {
+        let r = recs.iter().find(|r| r.rel <= rel && ((rel - r.rel) as usize) < r.code.len())?;
+        let off = (rel - r.rel) as usize;
+        return r.code.get(off..off + n as usize).map(|b| b.to_vec());
+    }
+    let svma = bin.base + rel as u64;
+    for (addr, bytes) in &bin.truth {
+        if *addr <= svma && svma < addr + bytes.len() as u64 {
+            let off = (svma - addr) as usize;
+            if let Some(b) = bytes.get(off..off + n as usize) {
+                return Some(b.to_vec());
+            }
+        }
+    }
+    let (a, b) = (fo as usize, (fo + n) as usize);
+    match bin.member {
+        Some((m, _)) => bin.serve.get(m as usize + a..m as usize + b).map(|x| x.to_vec()),
+        None => bin.bytes.get(a..b).map(|x| x.to_vec()),
+    }
+}
+
 // ---------------------------------------------------------------------------------------------
 // building a case
 // ---------------------------------------------------------------------------------------------
@@ -477,9 +856,21 @@ fn opt(n: Option<u64>) -> String {
 }
 
 fn build_case(bin: &Bin, note: &str, start: u32, size: u32, cont: bool) -> Vec<String> {
+    build_case_pre(bin, note, &[], start, size, cont)
+}
+
+fn build_case_pre(bin: &Bin, note: &str, pre: &[(u32, u32, bool)], start: u32, size: u32, cont: bool) -> Vec<String> {
     let mut ops = vec![format!("note {note}")];
     ops.extend(bin.file_ops.iter().cloned());
-    ops.push(format!("arch {}", bin.arch.unwrap_or("none")));
+    if let Some((a, n)) = bin.member {
+        ops.push(format!("member {a} {n}"));
+    }
+    ops.push(format!("arch {}", bin.code_arch.as_deref().unwrap_or("none")));
+    ops.push(format!("truearch {}", bin.arch.unwrap_or("none")));
+    ops.push("fpmode full".into());
+    for (a, z, c) in pre {
+        ops.push(format!("pre {a} {z} {}", *c as u8));
+    }
     ops.push(format!("req {start} {size} {}", cont as u8));
     let sym = if cont { lookup_symbol(bin, start) } else { None };
     ops.push(match sym {
@@ -493,12 +884,20 @@ fn build_case(bin: &Bin, note: &str, start: u32, size: u32, cont: bool) -> Vec<S
     for s in &bin.segs {
         ops.push(format!("seg {} {} {} {}", s.addr, s.size, s.fileoff, opt(s.datalen)));
     }
-    match spec_slice(bin, start, size, cont, sym) {
-        Some((rel, fo, n)) if (fo + n) as usize <= bin.bytes.len() => {
-            let w = &bin.bytes[fo as usize..(fo + n) as usize];
+    if let Some(recs) = &bin.jit {
+        ops.push("kind jit".into());
+        for r in recs {
+            ops.push(format!("jent {} {} {}", r.rel, r.codeoff, r.code.len()));
+        }
+        ops.push(format!("flen {}", bin.serve.len()));
+    }
+    let sl = spec_slice(bin, start, size, cont, sym).and_then(|(rel, fo, n)| window(bin, rel, fo, n).map(|w| (rel, fo, n, w)));
+    match sl {
+        Some((rel, fo, n, w)) => {
+            let w = &w[..];
             ops.push(format!("slice {rel} {n}"));
             ops.push(format!("win {fo} {}", hex(w)));
-            let (o, r) = tables(bin.arch, w);
+            let (o, r) = tables(bin.arch, w, rel);
             ops.push(format!("oracle {o}"));
             ops.push(format!("ref {r}"));
         }
@@ -599,7 +998,80 @@ fn gen_fixture(rng: &mut Rng, bin: &Bin) -> Vec<String> {
             skind = "capped";
         }
     }
-    build_case(bin, &format!("{kind} {skind}"), start, size, cont)
+    // other requests first, on the same SymbolManager (the server keeps one for its lifetime): a request
+    // must not depend on what was asked before
+    let mut pre = Vec::new();
+    if rng.chance(1, 5) {
+        for _ in 0..rng.range(1, 3) {
+            let a = if !bin.entries.is_empty() && rng.chance(2, 3) { rng.pick(&bin.entries).wrapping_add(rng.below(3) as u32) } else { start.wrapping_add(rng.below(64) as u32).wrapping_sub(32) };
+            pre.push((a, rng.range(0, 48) as u32, rng.chance(1, 2)));
+        }
+    }
+    let note = if pre.is_empty() { format!("{kind} {skind}") } else { format!("{kind}+pre {skind}") };
+    build_case_pre(bin, &note, &pre, start, size, cont)
+}
+
+/// a JITDUMP file with 1-5 code-load records (code from fixtures, random bytes, rejected patterns), other record
+/// types in between, and a request at / inside / at the very end of / just behind a record
+fn gen_jit(rng: &mut Rng) -> Vec<String> {
+    let (machine, arch) = *rng.pick(&[(62u32, "x86_64"), (62, "x86_64"), (3, "x86"), (40, "arm"), (183, "arm64"), (183, "arm64"), (243, "none")]);
+    let parch = if arch == "none" { "x86_64" } else { arch };
+    let mut items = Vec::new();
+    let nrec = rng.range(1, 5);
+    for _ in 0..nrec {
+        if rng.chance(1, 3) {
+            items.push(JitItem::Skip { kind: *rng.pick(&[1u32, 2, 4]), len: rng.range(0, 40) as usize });
+        }
+        let n = *rng.pick(&[1usize, 2, 3, 4, 7, 16, 33, 64, 150]) + rng.below(4) as usize;
+        let mut code = match rng.below(4) {
+            0 => (0..n).map(|_| rng.next_u64() as u8).collect::<Vec<u8>>(),
+            1 => {
+                let mut c = code_snippet(rng, parch, n / 2);
+                if let Some(p) = (!invalid_patterns(parch).is_empty()).then(|| rng.pick(&invalid_patterns(parch)[..]).clone()) {
+                    c.extend_from_slice(&p);
+                }
+                c.extend(code_snippet(rng, parch, n / 2));
+                c
+            }
+            _ => code_snippet(rng, parch, n),
+        };
+        if code.is_empty() {
+            code.push(0x90);
+        }
+        if rng.chance(1, 6) {
+            // zero-length code records: several index entries with the same relative address
+            for _ in 0..rng.range(1, 3) {
+                items.push(JitItem::Rec { namelen: rng.range(1, 9) as usize, code: Vec::new() });
+            }
+        }
+        items.push(JitItem::Rec { namelen: rng.range(1, 30) as usize, code });
+    }
+    if rng.chance(1, 3) {
+        items.push(JitItem::Skip { kind: 2, len: rng.range(0, 24) as usize });
+    }
+    let spec = JitSpec { machine, items };
+    let Some(bin) = build_jit(&spec) else { return vec!["note jit-build-failed".into()] };
+    let recs = bin.jit.clone().unwrap_or_default();
+    let nonempty: Vec<JitRec> = recs.iter().filter(|r| !r.code.is_empty()).cloned().collect();
+    let r = rng.pick(&nonempty[..]).clone();
+    let len = r.code.len() as u64;
+    let (start, kind): (u64, &str) = match rng.below(8) {
+        0..=1 => (r.rel as u64, "jit-rec-start"),
+        2..=3 => (r.rel as u64 + rng.below(len), "jit-rec-mid"),
+        4 => (r.rel as u64 + len - 1 - rng.below(len.min(4)), "jit-rec-tail"),
+        5 => (r.rel as u64 + len, "jit-rec-end"),
+        6 => (recs.last().map(|l| l.rel as u64 + l.code.len() as u64).unwrap_or(0) + rng.below(6), "jit-behind"),
+        _ => (r.rel as u64 + rng.below(len + 4), "jit-anywhere"),
+    };
+    let remaining = (r.rel as u64 + len).saturating_sub(start);
+    let (size, skind) = gen_size(rng, remaining);
+    let cont = rng.chance(1, 2);
+    let mut pre = Vec::new();
+    if rng.chance(1, 4) {
+        let q = rng.pick(&nonempty[..]);
+        pre.push((q.rel + rng.below(q.code.len() as u64) as u32, rng.range(0, 32) as u32, rng.chance(1, 2)));
+    }
+    build_case_pre(&bin, &format!("{kind} {skind}"), &pre, u32c(start), size, cont)
 }
 
 /// byte patterns that the decoders reject (found by probing; deterministic)
@@ -621,7 +1093,7 @@ fn invalid_patterns(arch: &str) -> &'static Vec<Vec<u8>> {
                 let mut cand: Vec<u8> = (0..unit.max(if a.starts_with("x86") { 1 + rng.below(3) as usize } else { unit })).map(|_| rng.next_u64() as u8).collect();
                 let keep = cand.len();
                 cand.extend_from_slice(&[0u8; 16]);
-                if probe_arch(a, &cand).0 == 'i' {
+                if probe_arch(a, &cand, 0).0 == 'i' {
                     cand.truncate(keep);
                     if !v.contains(&cand) {
                         v.push(cand);
@@ -699,6 +1171,7 @@ fn gen_syn(rng: &mut Rng) -> Vec<String> {
         2 => "long".to_string(),
         3 => format!("short:{}", rng.range(1, (text.len() as u64).min(40))),
         4 => format!("short:{}", rng.range(1, (text.len() as u64).min(40))),
+        5..=8 => format!("off:{}", rng.pick(&[0x200u64, 0x1000, 0x1234])),
         _ => "load".to_string(),
     };
     // functions: a partition of a prefix of the text
@@ -710,7 +1183,29 @@ fn gen_syn(rng: &mut Rng) -> Vec<String> {
         fsyms.push((textoff + p + thumb, if rng.chance(1, 6) { 0 } else { n }));
         p += n.max(1) + rng.below(6);
     }
-    let syn = Syn { machine: machine.to_string(), vbase, textoff, segmode, text, data, bss, fsyms };
+    // one case in five takes its symbols from a Breakpad file instead of the ELF symbol table: FUNC records with a
+    // size, PUBLIC records without (the last PUBLIC has no size at all), sometimes a FUNC that ends beyond 2^32
+    let mut bsyms = Vec::new();
+    if rng.chance(1, 5) {
+        let mut p = rng.below(6);
+        while p < text.len() as u64 && bsyms.len() < 5 {
+            let n = rng.range(1, 60);
+            bsyms.push((rng.chance(1, 2), textoff + p, n.min(text.len() as u64 - p + rng.below(3))));
+            p += n + rng.below(4);
+        }
+        if rng.chance(2, 3) {
+            bsyms.push((false, textoff + (text.len() as u64).saturating_sub(rng.range(1, 12)), 0));
+        }
+        if rng.chance(1, 4) {
+            bsyms.push((true, 0xffff_fff0, 0x20));
+        }
+        if rng.chance(1, 4) {
+            // a FUNC inside the text whose end lies beyond 2^32: `symbol.address.checked_add(size)` is None
+            bsyms.push((true, textoff + rng.below(text.len() as u64), 0xffff_ffff));
+        }
+    }
+    let has_bsyms = !bsyms.is_empty();
+    let syn = Syn { machine: machine.to_string(), vbase, textoff, segmode, text, data, bss, fsyms, bsyms };
     let Some(bin) = build_syn(&syn) else { return vec!["note syn-build-failed".into()] };
     let tlen = syn.text.len() as u64;
     let end = textoff + tlen + syn.data.as_ref().map(|d| d.0 + d.1.len() as u64).unwrap_or(0) + syn.bss.unwrap_or(0);
@@ -722,9 +1217,15 @@ fn gen_syn(rng: &mut Rng) -> Vec<String> {
         8 => (textoff.saturating_sub(rng.below(6)) + rng.below(3), "text-before"),
         _ => (textoff + rng.below(end - textoff + 8), "anywhere"),
     };
+    let (start, kind) = if has_bsyms && rng.chance(1, 2) {
+        let b = rng.pick(&syn.bsyms);
+        (b.1 + rng.below(3), "bsym-entry")
+    } else {
+        (start, kind)
+    };
     let remaining = (textoff + tlen).saturating_sub(start);
     let (size, skind) = gen_size(rng, remaining);
-    let cont = rng.chance(1, 2);
+    let cont = if has_bsyms { rng.chance(4, 5) } else { rng.chance(1, 2) };
     build_case(&bin, &format!("syn-{kind} {skind}"), u32c(start), size, cont)
 }
 
@@ -736,7 +1237,7 @@ fn excluded_point(rng: &mut Rng) -> Vec<String> {
     let below = *rng.pick(&[0x10000u64, 0x1000, 0x7f00_0000, 0xffff_0000]);
     let vbase = 0u64.wrapping_sub(below);
     let text = code_snippet(rng, "x86_64", 32);
-    let syn = Syn { machine: "x86_64".into(), vbase, textoff: 0x100, segmode: "load".into(), text, data: None, bss: None, fsyms: vec![(0x100, 32)] };
+    let syn = Syn { machine: "x86_64".into(), vbase, textoff: 0x100, segmode: "load".into(), text, data: None, bss: None, fsyms: vec![(0x100, 32)], bsyms: Vec::new() };
     let Some(bin) = build_syn(&syn) else { return vec!["note syn-build-failed".into()] };
     let start = match rng.below(5) {
         0 => 0x100,
@@ -755,8 +1256,11 @@ fn excluded_point(rng: &mut Rng) -> Vec<String> {
 fn bin_for_ops(ops: &[String]) -> Option<Bin> {
     for l in ops {
         let w: Vec<&str> = l.split_whitespace().collect();
-        if let ["file", "fix", rel] = w.as_slice() {
-            return fixture_by_path(rel).cloned();
+        if matches!(w.as_slice(), ["file", "fix" | "fixp" | "fat", ..]) {
+            return fixture_by_op(l);
+        }
+        if matches!(w.as_slice(), ["file", "jit", ..]) {
+            return build_jit(&jit_from_ops(ops)?);
         }
     }
     build_syn(&syn_from_ops(ops)?)
@@ -771,6 +1275,8 @@ fn err_kind(msg: &str) -> &'static str {
         "err:parse"
     } else if msg.contains("Unrecognized architecture") {
         "err:arch"
+    } else if msg.contains("Could not read the requested address range from the file") {
+        "err:io"
     } else if msg.contains("loading the binary") {
         "err:load"
     } else {
@@ -796,7 +1302,7 @@ impl Prop for C20 {
         let mut v = Vec::new();
         // section ends of every fixture: starts end-k, sizes at and around the clamp, both continue flags
         for bin in fixtures() {
-            let label = bin.file_ops[0].rsplit(' ').next().unwrap().replace('/', "_");
+            let label = bin.file_ops[0].trim_start_matches("file fix ").trim_start_matches("file ").replace(['/', ' '], "_");
             for (si, s) in bin.secs.iter().filter(|s| s.exec && s.datalen.unwrap_or(0) > 0).take(2).enumerate() {
                 for k in [0u64, 1, 2, 3, 4, 5, 8, 15, 16, 17] {
                     for size in [0u32, 1, 4, 16, 17, 0xffff_fff0, 0xffff_ffff] {
@@ -823,10 +1329,70 @@ impl Prop for C20 {
                 let mut text = code_snippet(&mut rng, arch, 16);
                 text.extend_from_slice(pat);
                 text.extend(code_snippet(&mut rng, arch, 24));
-                let syn = Syn { machine: machine.into(), vbase: 0x10000, textoff: 0x100, segmode: "load".into(), text: text.clone(), data: None, bss: None, fsyms: vec![(0x100, text.len() as u64)] };
+                let segmode = if pi % 2 == 1 { "off:4096" } else { "load" };
+                let syn = Syn { machine: machine.into(), vbase: 0x10000, textoff: 0x100, segmode: segmode.into(), text: text.clone(), data: None, bss: None, fsyms: vec![(0x100, text.len() as u64)], bsyms: Vec::new() };
                 if let Some(bin) = build_syn(&syn) {
                     for (start, size, cont) in [(0x100u32, 40u32, false), (0x110, 8, false), (0x110, 1, true), (0x100, 0, true), (0x101, 0xffff_ffff, false)] {
                         v.push(Case { name: format!("inv-{arch}-{pi}-{start}-{size}-{}", cont as u8), ops: build_case(&bin, "fixed-invalid fixed", start, size, cont) });
+                    }
+                }
+            }
+        }
+        // symbols from a Breakpad file: a FUNC with a size, a PUBLIC whose size is the distance to the next symbol,
+        // a FUNC that ends beyond 2^32 (no function end), a last PUBLIC without any size; continuation requested
+        for (machine, arch) in [("386", "x86"), ("x86_64", "x86_64"), ("arm", "arm"), ("aarch64", "arm64")] {
+            let mut rng = Rng::new(0xb5);
+            let text = code_snippet(&mut rng, arch, 64);
+            let syn = Syn {
+                machine: machine.into(),
+                vbase: 0x10000,
+                textoff: 0x100,
+                segmode: "load".into(),
+                text,
+                data: None,
+                bss: None,
+                fsyms: vec![(0x100, 64)],
+                bsyms: vec![(true, 0x100, 13), (false, 0x110, 0), (true, 0x118, 0xffff_ffff), (false, 0x138, 0)],
+            };
+            if let Some(bin) = build_syn(&syn) {
+                for start in [0x100u32, 0x105, 0x10c, 0x10d, 0x110, 0x112, 0x118, 0x120, 0x137, 0x138, 0x13c, 0x13f, 0x140] {
+                    for size in [0u32, 4, 40] {
+                        v.push(Case { name: format!("bsym-{arch}-{start}-{size}"), ops: build_case(&bin, "fixed-bsym fixed", start, size, true) });
+                    }
+                }
+            }
+        }
+        // JITDUMP: three records (12 bytes + an undecodable pattern, 1-3 bytes, 30 bytes) with other records in
+        // between; every start from 0 to 3 bytes behind the last record x boundary sizes x both continue flags
+        for (machine, arch) in [(3u32, "x86"), (62, "x86_64"), (40, "arm"), (183, "arm64")] {
+            let pats = invalid_patterns(arch);
+            let mut rng = Rng::new(0x1d);
+            let mut a = code_snippet(&mut rng, arch, 12);
+            if let Some(p) = pats.first() {
+                a.extend_from_slice(p);
+            }
+            let b = code_snippet(&mut rng, arch, if arch == "arm64" { 4 } else { 2 });
+            let c = code_snippet(&mut rng, arch, 30);
+            let total = (a.len() + b.len() + c.len()) as u32;
+            let spec = JitSpec {
+                machine,
+                items: vec![
+                    JitItem::Skip { kind: 2, len: 24 },
+                    JitItem::Rec { namelen: 3, code: a },
+                    JitItem::Rec { namelen: 5, code: Vec::new() },
+                    JitItem::Rec { namelen: 6, code: Vec::new() },
+                    JitItem::Rec { namelen: 17, code: b },
+                    JitItem::Skip { kind: 1, len: 8 },
+                    JitItem::Rec { namelen: 1, code: c },
+                ],
+            };
+            let sizes: &[u32] = if tier == Tier::Quick { &[0, 1, 5, 40, 0xffff_ffff] } else { &[0, 1, 2, 3, 4, 5, 8, 13, 16, 17, 40, 0xffff_fff0, 0xffff_ffff] };
+            if let Some(bin) = build_jit(&spec) {
+                for start in 0..=total + 3 {
+                    for &size in sizes {
+                        for cont in [false, true] {
+                            v.push(Case { name: format!("jit-{arch}-{start}-{size}-{}", cont as u8), ops: build_case(&bin, "jit-sweep sweep", start, size, cont) });
+                        }
                     }
                 }
             }
@@ -854,6 +1420,7 @@ impl Prop for C20 {
                 data: Some((0, vec![0x90, 0x00, 0xff, 0x1f, 0x20, 0x03, 0xd5, 0xc3])),
                 bss: Some(8),
                 fsyms: vec![(0x100, 13), (0x100 + 13 + if arch == "arm" { 1 } else { 0 }, (tlen - 13) as u64)],
+                bsyms: Vec::new(),
             };
             let sizes: &[u32] = if tier == Tier::Quick { &[0, 1, 2, 3, 5, 13, 40, 0xffff_ffff] } else { &[0, 1, 2, 3, 4, 5, 6, 7, 8, 12, 13, 14, 16, 24, 32, 40, 47, 0xffff_fff0, 0xffff_fff1, 0xffff_ffff] };
             if let Some(bin) = build_syn(&syn) {
@@ -873,7 +1440,9 @@ impl Prop for C20 {
             return excluded_point(rng);
         }
         let fx = fixtures();
-        if fx.is_empty() || rng.chance(2, 5) {
+        if rng.chance(1, 8) {
+            gen_jit(rng)
+        } else if fx.is_empty() || rng.chance(2, 5) {
             gen_syn(rng)
         } else {
             let bin = &fx[rng.below(fx.len() as u64) as usize];
@@ -886,10 +1455,15 @@ impl Prop for C20 {
             return vec!["err:nobinary".into()];
         };
         let mut req: Option<(u32, u32, bool)> = None;
+        let mut pre: Vec<(u32, u32, bool)> = Vec::new();
+        let mut full_fp = false;
         for l in ops {
             let w: Vec<&str> = l.split_whitespace().collect();
             match w.as_slice() {
                 ["req", a, s, c] => req = Some((a.parse().unwrap_or(0), s.parse().unwrap_or(0), *c == "1")),
+                ["pre", a, s, c] => pre.push((a.parse().unwrap_or(0), s.parse().unwrap_or(0), *c == "1")),
+                ["arch", a] => stats.bump(&format!("code_arch_{a}")),
+                ["fpmode", "full"] => full_fp = true,
                 ["note", k, z] => {
                     stats.bump(&format!("start_{k}"));
                     stats.bump(&format!("size_{z}"));
@@ -903,16 +1477,33 @@ impl Prop for C20 {
         if cont {
             stats.bump("continue_until_function_end");
         }
-        let body = serde_json::json!({
-            "name": bin.name, "debugName": bin.name, "debugId": bin.debug_id,
-            "startAddress": format!("{start:#x}"), "size": format!("{size:#x}"),
-            "continueUntilFunctionEnd": cont,
-        })
-        .to_string();
+        stats.bump(if bin.jit.is_some() {
+            "image_jitdump"
+        } else if bin.member.is_some() {
+            "image_fat_member"
+        } else {
+            "image_object"
+        });
+        let body_of = |start: u32, size: u32, cont: bool| {
+            serde_json::json!({
+                "name": bin.name, "debugName": bin.name, "debugId": bin.debug_id,
+                "startAddress": format!("{start:#x}"), "size": format!("{size:#x}"),
+                "continueUntilFunctionEnd": cont,
+            })
+            .to_string()
+        };
+        let body = body_of(start, size, cont);
+        if !pre.is_empty() {
+            stats.bump("with_preceding_requests");
+        }
         let m = manager(&bin);
         let r = catch_unwind(AssertUnwindSafe(|| {
-            let api = samply_api::Api::new(&m);
-            futures::executor::block_on(api.query_api("/asm/v1", &body))
+            // `Api::query_api` consumes the Api (the server builds one per request); the SymbolManager is the
+            // long-lived object
+            for (a, z, c) in &pre {
+                let _ = futures::executor::block_on(samply_api::Api::new(&m).query_api("/asm/v1", &body_of(*a, *z, *c)));
+            }
+            futures::executor::block_on(samply_api::Api::new(&m).query_api("/asm/v1", &body))
         }));
         let Ok(text) = r else {
             stats.bump("outcome_panic");
@@ -953,7 +1544,7 @@ impl Prop for C20 {
                 bad.push(if h.is_empty() { "-".to_string() } else { h });
             } else {
                 offs.push(off.to_string());
-                fps.push(fingerprint(arch, t));
+                fps.push(fingerprint(arch, t, !full_fp));
             }
         }
         stats.bump("outcome_resp");
@@ -974,7 +1565,9 @@ impl Prop for C20 {
     }
     /// a decode loop that never ends or allocates without bound must become the outcome of one case
     fn isolate(&self) -> Option<(u64, u64)> {
-        Some((15, 8192))
+        // (a mutant that re-creates the reader at the wrong place loops for ~2^32 iterations while its listing
+        // grows: the address-space limit turns that into a quick abort, the time limit bounds the rest)
+        Some((6, 4096))
     }
     fn nontrivial(&self, _ops: &[String], out: &[String]) -> bool {
         out.len() == 4 && out[0].starts_with("resp") && out[1] != "offs -"
